@@ -231,6 +231,27 @@ CtxKinds1 ==
                                                 Sh(<<"y">>, "query", "ok"), Cx(<<"z">>, "sudo", "migrate"),
                                                 Cx(NameMigrate, "migrate", "sudo") >>] >>]
 
+(* handlers carrying serde names forwarded to their variants: `#[sv::attr(serde(alias = ".."))]`, `#[sv::attr(serde(rename = ".."))]`.   *)
+(* AL1: aliases and new names that no other part uses.  AL2 / AL2p: one alias claimed by a handler of each of two interfaces -- a     *)
+(* wire name shared between two parts (C05: must not build); the twin lists the interfaces in the opposite order (C14).               *)
+Zed == <<"z","e","d">>
+OwnZed == <<"o","w","n","_","z","e","d">>
+Other == <<"o","t","h","e","r">>
+SudoOther == <<"s","_","o","t","h","e","r">>
+Al(name, kind, as) == Sh(name, kind, "ok") @@ [aliases |-> as]
+Rn(name, kind, w) == Sh(name, kind, "ok") @@ [wname |-> w]
+Alias1 ==
+    [id |-> "AL1", family |-> "alias", overrides |-> {},
+     parts |-> << [id |-> "i1", methods |-> << Al(NameFoo, "exec", <<Zed>>), Rn(NameBar, "exec", Other), Sh(<<"y">>, "query", "ok") >>],
+                  [id |-> "own", methods |-> << Sh(NameInstantiate, "instantiate", "ok"), Al(<<"x">>, "exec", <<OwnZed>>),
+                                                Rn(<<"z">>, "sudo", SudoOther), Sh(NameBar, "query", "ok") >>] >>]
+Alias2(rev) ==
+    LET a == [id |-> "i1", methods |-> << Al(NameFoo, "exec", <<Zed>>), Sh(<<"y">>, "query", "ok") >>]
+        b == [id |-> "i2", methods |-> << Al(NameBar, "exec", <<Zed>>), Sh(<<"z">>, "sudo", "ok") >>]
+        own == [id |-> "own", methods |-> << Sh(NameInstantiate, "instantiate", "ok"), Sh(<<"x">>, "exec", "ok") >>]
+    IN [id |-> IF rev THEN "AL2p" ELSE "AL2", family |-> "aliasshare", overrides |-> {},
+        parts |-> IF rev THEN <<b, a, own>> ELSE <<a, b, own>>]
+
 (* programs that override entry points (C06, C04): one handler of every kind, some kinds served by the user's own functions *)
 OvProg(id, ov) ==
     [id |-> id, family |-> "override", overrides |-> ov,
@@ -280,12 +301,13 @@ PermTwin(p) ==
 RawSeq ==      \* all programs of this instance, as a sequence
        [gi \in 1..Len(Groups) |-> CorpusProg(gi)]
     \o [i \in 1..Len(SmallFs) |-> SmallProgOf(SmallFs[i], "m" \o ToString(i))]
-    \o <<Shared1, Shared2, Shared3, Nested1, Unicode1, Empty1, CtxKinds1, Wide1, Defaults1, Keywords1, Generic1, Generic2, PermTwin(Shared1), PermTwin(CorpusProg(1))>> \o OverrideProgs \o CollideProgs
+    \o <<Shared1, Shared2, Shared3, Nested1, Unicode1, Empty1, CtxKinds1, Wide1, Defaults1, Keywords1, Generic1, Generic2, PermTwin(Shared1), PermTwin(CorpusProg(1)),
+      Alias1, Alias2(FALSE), Alias2(TRUE)>> \o OverrideProgs \o CollideProgs
 
 (* the table of elaborated programs: the static semantics applied once per program *)
 ElabSeq == TLCEval([i \in 1..Len(RawSeq) |-> Elab(RawSeq[i])])
 ProgTable == ElabSeq          \* program "ids" of the model are indices into this sequence
-CompiledIds == {i \in 1..Len(RawSeq) : RawSeq[i].family \in {"corpus", "shared", "perm", "override", "collide", "generic", "nested"}}
+CompiledIds == {i \in 1..Len(RawSeq) : RawSeq[i].family \in {"corpus", "shared", "perm", "override", "collide", "generic", "nested", "alias", "aliasshare"}}
 
 (* ------------------------------------------------------------ documents *)
 (* long documents (a body of ~1.2 kB of four-byte characters after 0..3 one-byte characters: whatever byte offset a *)
@@ -363,6 +385,9 @@ StimSet(q) ==
     \* the other spelling of the name (convert_case's snake case of the variant), where it differs
   \cup {St(M(q, x).kind, "obj1", M(q, x).near, "exact", q.parts[x[1]].id, M(q, x).name, 0) :
            x \in {y \in EnumMs(q) : M(q, y).near # M(q, y).wire}}
+    \* the message under each of its further names (forwarded serde aliases), at its own entry point
+  \cup UNION {{St(M(q, x).kind, "obj1", a, "exact", q.parts[x[1]].id, M(q, x).name, 1) : a \in Range(M(q, x).aliases)} : x \in EnumMs(q)}
+    \* (the name derived from the method, which a forwarded rename replaces, is the `near` spelling above: no wire name any more)
     \* flat struct messages at every entry point
   \cup {St(e, "flat", M(q, x).kind, "exact", q.parts[x[1]].id, M(q, x).name, 1) : x \in StructMs(q), e \in Eps(q)}
     \* unknown names and degenerate shapes
@@ -393,9 +418,9 @@ EmitCorpus ==
 (* design lemmas evaluated once (constant level) *)
 LemmaC01Naming == \A n \in NameUniverse : IsShapeName(n) => WireDef(n) = n
 LemmaListsSorted ==
-    \A id \in {i \in CompiledIds : RawSeq[i].family \notin {"override", "collide"}} : \A i \in 1..Len(RawSeq[id].parts) : \A k \in EnumKinds :
+    \A id \in {i \in CompiledIds : RawSeq[i].family \notin {"override", "collide", "aliasshare"}} : \A i \in 1..Len(RawSeq[id].parts) : \A k \in EnumKinds :
         LET l == NameListC(RawSeq[id].parts[i], k) IN \A x \in 1..(Len(l) - 1) : NameLess(l[x], l[x + 1])
-LemmaCorpusAccepted == \A id \in CompiledIds : ProgTable[id].accepted = (RawSeq[id].family # "collide" \/ RawSeq[id].id = "X4")
+LemmaCorpusAccepted == \A id \in CompiledIds : ProgTable[id].accepted = (RawSeq[id].family \notin {"collide", "aliasshare"} \/ RawSeq[id].id = "X4")
 LemmaCorpusCoversUniverse ==
     {Str(n) : n \in NameUniverse} =
         UNION {{m.name : m \in {x \in EAllMethods(ProgTable[id]) : x.kind \in EnumKinds}} :
